@@ -352,6 +352,20 @@ def designed_cases():
                         {"id": "V2", "pkg": "pkg:d", "events": [["introduced", "0"], ["fixed", "1.0.1"]], "sev": "high"}],
               "opts": dict(base_opts("maven-override"), levels={"": lvl})}
         out.append({"fam": "Remediation", "cfg": "designed", "scenario": sc, "devs": [], "model": None, "id": vf.case_id(sc)})
+    # an explicit vulnerability list and a record that appears only after the patch and carries a listed ID as an alias:
+    # the report and a fresh analysis must treat it alike (only a record's own ID counts)
+    for eco, strat in (("Maven", "override"), ("npm", "relax")):
+        nm = (lambda p: "pkg:" + p) if eco == "Maven" else (lambda p: p)
+        fam = "maven-override" if eco == "Maven" else "npm-relax"
+        dep = (lambda v: v) if eco == "Maven" else (lambda v: "^" + v)
+        for listed in (["V1"], ["V1", "ALIAS-X"], ["ALIAS-X"]):
+            uni = [{"name": nm("foo"), "versions": [{"v": "1.0.0", "deps": [], "latest": False}, {"v": "3.0.0", "deps": [], "latest": True}]}]
+            vulns = [{"id": "V1", "pkg": nm("foo"), "events": [["introduced", "0"], ["fixed", "3.0.0"]], "sev": "high"},
+                     {"id": "V2", "pkg": nm("foo"), "events": [["introduced", "3.0.0"]], "sev": "high", "aliases": ["ALIAS-X"]}]
+            o = base_opts(fam)
+            o["explicit"] = listed
+            sc = {"eco": eco, "universe": uni, "manifest": [{"name": nm("foo"), "req": dep("1.0.0"), "group": ""}], "vulns": vulns, "opts": o}
+            out.append({"fam": "Remediation", "cfg": "designed", "scenario": sc, "devs": [], "model": None, "id": vf.case_id(sc)})
     sc = json.loads(COMBINED_WITNESS)
     out.append({"fam": "Remediation", "cfg": "designed", "scenario": sc, "devs": [], "model": None, "id": vf.case_id(sc)})
     return out
